@@ -38,6 +38,8 @@ def scenarios():
         SC("default-store-creation-race", [], [scen.act_default_store_keep("/c7/d", "s_text"), scen.act_default_store_keep("/c7/d", "s_text")], [[T], [T]], {}, [(scen.act_default_store_keep("/c7/d", "s_text"), [T]), (scen.act_default_store_load("/c7/d"), [T])]),
         SC("shared-internal-two-views", [], [k("/c7/p", "s_text", data="data"), k("/c7/p", "s_text", data="data2")], [[T], [T]], {("/c7/p", "data"): [T], ("/c7/p", "data2"): [T]}, [(k("/c7/p", "s_text", data="data2"), [T])]),
         SC("shared-internal-two-views-different-code", [k("/c7/p", "s_text")], [k("/c7/p", "s_text_v2", data="data2"), ld("/c7/p", "data")], [[T2], [T]], {("/c7/p", "data"): [T], ("/c7/p", "data2"): [T2]}, [(k("/c7/p", "s_text_v2", data="data2"), [T2])]),
+        SC("same-keep-frame-parquet", [], [k("/c7/f", "s_frame"), k("/c7/f", "s_frame")], [[scen.frame_value()], [scen.frame_value()]], {("/c7/f", "data"): [scen.frame_value()]}, [(k("/c7/f", "s_frame"), [scen.frame_value()])]),
+        SC("rekeep-vs-reader-with-object-cache", [k("/c7/p", "s_text", cache=2)], [k("/c7/p", "s_text_v2", cache=2), scen.act_load("/c7/p")], [[T2], [T, T2]], {("/c7/p", "data"): [T2]}, [(k("/c7/p", "s_text_v2", cache=2), [T2])]),
         SC("nested-eval-cold-twice", [], [scen.act_eval_top(), scen.act_eval_top()], [[E["n_top"]], [E["n_top"]]], nested_final, [(scen.act_eval_top(), [E["n_top"]])]),
     ]
 
